@@ -39,7 +39,11 @@ pub fn gen_case(r: &mut Prng, tag: &str, allow_panicky_bare: bool, big: bool) ->
         let mut stmts = vec![];
         for _ in 0..nst {
             g.nodes = 0;
-            let s = if g.r.chance(1, 4) { g.assignment(&NAMES, depth) } else { g.any(depth) };
+            let s = match g.r.below(8) {
+                0 | 1 => g.assignment(&NAMES, depth),
+                2 => g.statement(&NAMES, depth),
+                _ => g.any(depth),
+            };
             stmts.push(s);
         }
         (stmts, std::mem::take(&mut g.regs))
